@@ -9,10 +9,10 @@ import (
 func init() {
 	register(&property{
 		ID: "C14",
-		Explanation: "Decides the teardown discipline structurally: every effect of Session.Close is behind the success edge of CAS(shutdown,0,1) (idempotence); every close() of a struct-field channel is once-guarded (a won CAS on the same object or a sync.Once closure); every failure signal of the connection (EPOLLRDHUP, read of 0 bytes, write error) reaches Session.Close through exitErr; " +
+		Explanation: "Decides the teardown discipline structurally: every effect of Session.Close is behind the success edge of CAS(shutdown,0,1) (idempotence); every close() of a struct-field channel is once-guarded (a won CAS on the same object or a sync.Once closure); every failure signal of the connection (EPOLLRDHUP, read of 0 bytes, write error) reaches Session.Close through exitErr; Close wakes every stream (closes its notify channel) before the teardown, so pending reads - also inside callbacks - fail instead of hanging the event loop; " +
 			"the teardown closure posted by Close releases everything the session acquired (event connection, every stream + its callback wait, buffer-manager reference, queue mapping) on every path, and the unmap routines release the mapping and, for each mapping type, the file or descriptor; the stream table that teardown sets to nil is written only behind a nil test under its lock or from event-loop-only code; everything registered (dispatcher table, global buffer-manager table, listener session set) has its unregistration on the teardown path. " +
 			"NOT decided: unmap racing with a Flush/read still in flight, fd/mapping census after arbitrary crash points, hangs.",
-		RuleText: "R14.1 dominance of every store/call/close in Session.Close by the CAS-success edge; R14.2 census of close(ch); R14.3 call-chain reachability from the failure branches; R14.4 must-pass-through in the teardown closure (nil-guard edges pruned) and in the unmap routines; R14.5 census of writes to Session.streams; R14.7 insert/delete pairing of the registries.",
+		RuleText: "R14.1 dominance of every store/call/close in Session.Close by the CAS-success edge; R14.2 census of close(ch); R14.3 call-chain reachability from the failure branches; R14.4 must-pass-through in the teardown closure (nil-guard edges pruned) and in the unmap routines; R14.5 census of writes to Session.streams; R14.6 wake-all-streams-before-teardown in Session.Close (shared with C11 R11.2); R14.7 insert/delete pairing of the registries.",
 		Run:      runC14,
 	})
 }
@@ -207,6 +207,8 @@ func runC14(p *P, r *R) {
 		r.ob("R14.3", "connEventHandler.onRemoteClose releases the connection (deferredClose)", p.pos(orc.Pos()), p.must(orc, p.mCall("(*connEventHandler).deferredClose"), 0), true, "")
 	}
 
+	// R14.6 streams fail their pending calls when the session dies: every stream is woken before the teardown
+	closeWakesStreams(p, r, "R14.6")
 	c14Teardown(p, r, sc)
 	c14NilMap(p, r)
 	c14Registries(p, r, sc)
